@@ -44,7 +44,9 @@ CONSTANTS
   Faults,      \* BOOLEAN: the environment may make one invocation per API step fail
   Mutation,    \* "none", or the name of a deliberately wrong variant of L (shows that H is sensitive)
   KeepHist,    \* BOOLEAN: carry the history (MBT configurations)
-  MaxGens      \* bound on the number of generator objects created in one history
+  MaxGens,     \* bound on the number of generator objects created in one history
+  Persistent   \* BOOLEAN: a fault is persistent - every invocation from the failing one on fails too (a closed file, a
+               \* broken pipe), each with an exception object of its own; FALSE: one-shot faults
 
 VARIABLES
   globals,     \* the module- and class-level containers of the package
@@ -81,6 +83,9 @@ Globals0 ==
     registries           |-> "import",   \* the six yaml_* tables of every class (Registry.tla; add_* is not an API call of C11)
     resolvers            |-> "import",   \* resolver.py:170-227
     other                |-> EmptyDict,
+    \* a module-level text buffer does NOT exist in the package (every stream=None call creates its own io.StringIO, which
+    \* is the object's `written`); the field is the place a wrong variant keeps one.  Its CONTENT is state.
+    text_buffer          |-> <<>>,
     \* NOT library state but the rest of the environment of a call: the objects the CALLER owns and hands in - the nodes
     \* passed to serialize / serialize_all (the same value passed again = the same node objects).  What the library may
     \* have written on them: marks per node identity.  No action of L writes here (frame: H_CallerObjects).
@@ -187,9 +192,12 @@ NewLoader(op, cls, be, src, io, mode) ==
     anchors |-> {}, nodes |-> <<>>, held |-> <<>>,            \* Composer.anchors; the nodes of the current document
     constructed |-> <<>>, recursive |-> {}, sgens |-> <<>>, deep |-> FALSE, k |-> 0,   \* Constructor
     out |-> <<>>, end |-> "-", exc |-> "-", yielded |-> FALSE, disposed |-> FALSE, ninv |-> 0, injected |-> 0,
-    written |-> <<>>, rdepth |-> 0 ]      \* rdepth: BaseResolver.resolver_exact_paths / resolver_prefix_paths (their common length)
+    written |-> <<>>, rdepth |-> 0, ninj |-> 0, excContent |-> "-" ]      \* rdepth: BaseResolver.resolver_exact_paths / resolver_prefix_paths (their common length)
 
-Raise(o, x) == [o EXCEPT !.exc = x, !.pc = "dispose"]
+\* An exception is a record of identity and content.  "INJ" is the object the environment raised FIRST, "INJ2" any later one
+\* (persistent faults); its content (type, arguments, attributes, text) is "as raised" unless somebody writes to it.
+Raise(o, x) == [o EXCEPT !.exc = IF x = "INJ" /\ o.ninj > 1 THEN "INJ2" ELSE x, !.pc = "dispose",
+                         !.excContent = IF x = "INJ" THEN "as raised" ELSE @]
 Deliver(o, u) == [o EXCEPT !.out = Append(@, u), !.yielded = (o.mode = "gen")]
 
 CurDoc(o) == Doc(o.src.docs[o.d])
@@ -198,7 +206,7 @@ NChunks(src) == LET RECURSIVE S(_) S(j) == IF j = 0 THEN 0 ELSE S(j - 1) + 1 + L
 
 \* stream.read(): one chunk per call, '' at the end of the input (reader.py:177-185)
 ReadChunk(o, inj) ==
-  IF inj THEN Raise([o EXCEPT !.injected = o.ninv + 1, !.ninv = o.ninv + 1], "INJ")
+  IF inj THEN Raise([o EXCEPT !.injected = IF o.injected = 0 THEN o.ninv + 1 ELSE o.injected, !.ninj = o.ninj + 1, !.ninv = o.ninv + 1], "INJ")
   ELSE IF o.avail < NChunks(o.src) THEN [o EXCEPT !.avail = @ + 1, !.ninv = @ + 1]
   ELSE [o EXCEPT !.eof = TRUE, !.ninv = @ + 1]
 
@@ -262,6 +270,9 @@ RSet(o, g, n) ==
        IN  [o |-> o, g |-> [g EXCEPT !.other = IF n = 0 THEN [k \in DOMAIN old \ {RKey} |-> old[k]] ELSE Put(old, RKey, n)]]
   ELSE [o |-> [o EXCEPT !.rdepth = n], g |-> g]
 
+\* an exception of a user constructor passes construct_mapping / construct_sequence untouched (no except clause there)
+Annotated(o) == IF Mutation = "annotate_marked_error" THEN [o EXCEPT !.excContent = "rewritten"] ELSE o    \* wrong: marks filled in
+
 LStepCore(o, g, inj) ==
   LET same(o2) == [o |-> o2, g |-> g]
       lvl == Level(o.op)
@@ -318,7 +329,7 @@ LStepCore(o, g, inj) ==
            LET n == o.held[o.k + 1]
                oc == CtorOutcome(o.cls, n.it)
                o1 == [o EXCEPT !.k = @ + 1]
-           IN  IF IsCallback(o.cls, n.it) /\ inj THEN same(Raise([o1 EXCEPT !.injected = o.ninv + 1, !.ninv = o.ninv + 1], "INJ"))
+           IN  IF IsCallback(o.cls, n.it) /\ inj THEN same(Annotated(Raise([o1 EXCEPT !.injected = IF o.injected = 0 THEN o.ninv + 1 ELSE o.injected, !.ninj = o.ninj + 1, !.ninv = o.ninv + 1], "INJ")))
                ELSE LET o2 == IF IsCallback(o.cls, n.it) THEN [o1 EXCEPT !.ninv = @ + 1] ELSE o1
                     IN  IF n.it = "dk" /\ oc = "err" THEN same(Raise([o2 EXCEPT !.deep = TRUE, !.recursive = @ \cup {o.k + 1}], "ConstructorError"))
                         ELSE IF oc = "err" THEN same(Raise([o2 EXCEPT !.recursive = @ \cup {o.k + 1}], "ConstructorError"))
@@ -326,7 +337,7 @@ LStepCore(o, g, inj) ==
                                              !.sgens = IF TwoPhase(o.cls, n.it) THEN Append(@, n.it) ELSE @])
     [] o.pc = "drain" ->          \* construct_document: run the queued generators (constructor.py:56-61)
          IF o.sgens = <<>> THEN same([o EXCEPT !.pc = "creset"])
-         ELSE IF Head(o.sgens) = "cg" /\ inj THEN same(Raise([o EXCEPT !.injected = o.ninv + 1, !.ninv = o.ninv + 1, !.sgens = Tail(@)], "INJ"))
+         ELSE IF Head(o.sgens) = "cg" /\ inj THEN same(Raise([o EXCEPT !.injected = IF o.injected = 0 THEN o.ninv + 1 ELSE o.injected, !.ninj = o.ninj + 1, !.ninv = o.ninv + 1, !.sgens = Tail(@)], "INJ"))
          ELSE same([o EXCEPT !.sgens = Tail(@), !.ninv = IF Head(o.sgens) = "cg" THEN @ + 1 ELSE @])
     [] o.pc = "creset" ->         \* construct_document: the three resets (constructor.py:62-64)
          LET o1 == [o EXCEPT !.constructed = <<>>, !.recursive = {}, !.deep = FALSE, !.held = <<>>, !.k = 0]
@@ -374,7 +385,7 @@ NewDumper(op, cls, be, vals, io) ==
     represented |-> {}, keeper |-> <<>>, aliasKey |-> "none", rnodes |-> <<>>, ri |-> 0,     \* Representer
     closed |-> "none", serialized |-> {}, sanchors |-> EmptyDict, lastAnchorId |-> 0,       \* Serializer
     pend |-> <<>>, evq |-> <<>>, tp |-> NoRef, wbuf |-> <<>>, au |-> Val(vals[1]).au,       \* Emitter: events, tag_prefixes, allow_unicode
-    written |-> <<>>, flushes |-> 0, rdepth |-> 0, openEnded |-> FALSE,                                          \* what the stream received; resolver stacks
+    written |-> <<>>, flushes |-> 0, rdepth |-> 0, openEnded |-> FALSE, ninj |-> 0, excContent |-> "-",                                          \* what the stream received; resolver stacks
     out |-> <<>>, end |-> "-", exc |-> "-", yielded |-> FALSE, disposed |-> FALSE, ninv |-> 0, injected |-> 0 ]
 
 Shared(it) == it \in {"x1", "x2", "rec"}
@@ -475,15 +486,15 @@ Streams(o) == o.io = "file"
 
 DInvocation(o) ==
   \/ o.pc = "pump" /\ ~NeedMore(o.evq) /\ ~ChunkEmpty(o, o.evq[1]) /\ o.be = "py" /\ Streams(o)
-  \/ o.pc = "flush" /\ Streams(o)
+  \/ o.pc \in {"flush", "finalflush"} /\ Streams(o)
   \/ o.pc = "cwrite" /\ Streams(o)
   \/ o.pc = "represent" /\ o.ri < Len(Val(o.vals[o.d]).items) /\ ValIsCallback(o.cls, Val(o.vals[o.d]).items[o.ri + 1])
 
 \* stream.write(chunks): the injected failure, or the data arrives
 WriteTo(o, data, inj, nextpc) ==
   IF inj /\ Streams(o) THEN
-     IF Mutation = "wrap_write_error" THEN Raise([o EXCEPT !.injected = o.ninv + 1, !.ninv = o.ninv + 1], "EmitterError")
-     ELSE Raise([o EXCEPT !.injected = o.ninv + 1, !.ninv = o.ninv + 1], "INJ")
+     IF Mutation = "wrap_write_error" THEN Raise([o EXCEPT !.injected = IF o.injected = 0 THEN o.ninv + 1 ELSE o.injected, !.ninj = o.ninj + 1, !.ninv = o.ninv + 1], "EmitterError")
+     ELSE Raise([o EXCEPT !.injected = IF o.injected = 0 THEN o.ninv + 1 ELSE o.injected, !.ninj = o.ninj + 1, !.ninv = o.ninv + 1], "INJ")
   ELSE [o EXCEPT !.written = @ \o data, !.ninv = IF Streams(o) THEN @ + 1 ELSE @, !.pc = nextpc]
 
 \* an exception out of represent_data leaves through `finally: dumper.dispose()` only: Serializer.close() is NOT called on
@@ -512,7 +523,7 @@ DStepCore(o, g, inj) ==
          IF o.ri = Len(items) THEN same([o EXCEPT !.pc = "serialize"])
          ELSE LET it == items[o.ri + 1]
                   o1 == [o EXCEPT !.ri = @ + 1]
-              IN  IF ValIsCallback(o.cls, it) /\ inj THEN same(ReprFails([o1 EXCEPT !.injected = o.ninv + 1, !.ninv = o.ninv + 1], "INJ"))
+              IN  IF ValIsCallback(o.cls, it) /\ inj THEN same(ReprFails([o1 EXCEPT !.injected = IF o.injected = 0 THEN o.ninv + 1 ELSE o.injected, !.ninj = o.ninj + 1, !.ninv = o.ninv + 1], "INJ"))
                   ELSE IF ReprOutcome(o.cls, it) # "ok" THEN same(ReprFails(o1, ReprOutcome(o.cls, it)))
                   ELSE same([o1 EXCEPT !.ninv = IF ValIsCallback(o.cls, it) THEN @ + 1 ELSE @,
                                        !.aliasKey = ObjOf(it),
@@ -558,7 +569,7 @@ DStepCore(o, g, inj) ==
                   ELSE IF o.be = "py" THEN [o |-> WriteTo(o1, r.chunks, inj, after), g |-> r.g]
                   ELSE [o |-> [o1 EXCEPT !.wbuf = @ \o r.chunks, !.pc = after], g |-> r.g]      \* libyaml buffers
     [] o.pc = "flush" ->               \* Emitter.flush_stream: stream.flush() if the stream has one
-         IF inj /\ Streams(o) THEN same(Raise([o EXCEPT !.injected = o.ninv + 1, !.ninv = o.ninv + 1], "INJ"))
+         IF inj /\ Streams(o) THEN same(Raise([o EXCEPT !.injected = IF o.injected = 0 THEN o.ninv + 1 ELSE o.injected, !.ninj = o.ninj + 1, !.ninv = o.ninv + 1], "INJ"))
          ELSE same([o EXCEPT !.flushes = @ + 1, !.ninv = IF Streams(o) THEN @ + 1 ELSE @, !.pc = "pump"])
     [] o.pc = "cwrite" ->              \* libyaml flushes its buffer through the write handler
          IF o.wbuf = <<>> THEN same([o EXCEPT !.pc = "pump"])
@@ -566,17 +577,32 @@ DStepCore(o, g, inj) ==
     [] o.pc = "finish" -> same([Deliver(o, <<"TEXT">>) EXCEPT !.pc = "dispose"])
     [] o.pc = "dispose" ->             \* `finally: dumper.dispose()` : Emitter.dispose (emitter.py:106-109)
          LET x == IF Mutation = "dispose_raises" /\ o.evq # <<>> /\ NeedMore(o.evq) THEN "EmitterError" ELSE o.exc
-         IN  same([o EXCEPT !.disposed = TRUE, !.pc = "done", !.exc = x, !.end = IF x = "-" THEN "return" ELSE "raise:" \o x])
+         IN  same([o EXCEPT !.disposed = TRUE, !.exc = x, !.end = IF x = "-" THEN "return" ELSE "raise:" \o x,
+                            !.pc = IF Mutation = "flush_in_finally" /\ Streams(o) /\ lvl >= 2 THEN "finalflush" ELSE "done"])
+    [] o.pc = "finalflush" ->          \* wrong variant only: `finally: dumper.dispose(); stream.flush()`
+         LET o2 == IF inj THEN Raise([o EXCEPT !.injected = IF o.injected = 0 THEN o.ninv + 1 ELSE o.injected, !.ninj = o.ninj + 1,
+                                               !.ninv = o.ninv + 1], "INJ")
+                   ELSE [o EXCEPT !.ninv = @ + 1]
+         IN  same([o2 EXCEPT !.pc = "done", !.end = IF o2.exc = "-" THEN "return" ELSE "raise:" \o o2.exc])
     [] OTHER -> same(o)
 
 \* Serializer.serialize_node descends / ascends around every node (serializer.py:84-110)
-DStep(o, g, inj) ==
+DStepR(o, g, inj) ==
   IF ~(HasPaths(o.cls) /\ Level(o.op) >= 2) THEN DStepCore(o, g, inj)
   ELSE IF o.pc = "serialize" /\ RGet(o, g) # 0 THEN [o |-> Raise(o, "IndexError"), g |-> g]
   ELSE LET r == DStepCore(o, g, inj) IN
        IF o.pc = "serialize" THEN RSet(r.o, r.g, RGet(r.o, r.g) + 1)
        ELSE IF o.pc = "sreset" /\ RGet(r.o, r.g) > 0 THEN RSet(r.o, r.g, RGet(r.o, r.g) - 1)
        ELSE r
+
+\* stream=None: the entry point creates its own io.StringIO and returns its value; nothing of it outlives the call
+DStep(o, g, inj) ==
+  LET r == DStepR(o, g, inj) IN
+  IF Mutation = "shared_text_buffer" /\ o.io = "mem" /\ Level(o.op) >= 2 /\ o.pc = "dispose"     \* wrong: ONE module-level buffer,
+  THEN LET total == r.g.text_buffer \o r.o.written                                                \* emptied when the text is returned
+       IN  IF r.o.exc = "-" THEN [o |-> [r.o EXCEPT !.written = total], g |-> [r.g EXCEPT !.text_buffer = <<>>]]
+           ELSE [o |-> r.o, g |-> [r.g EXCEPT !.text_buffer = total]]
+  ELSE r
 
 DActionName(o) ==
   CASE o.pc = "unstarted" -> "CreateDumper"
@@ -589,7 +615,7 @@ DActionName(o) ==
     [] o.pc = "close" -> "SerializerClose"
     [] o.pc = "emit" -> "EmitterEmit"
     [] o.pc = "pump" -> IF ~NeedMore(o.evq) /\ o.evq[1].k = "DS" THEN "EmitDocumentStart" ELSE "EmitEvent"
-    [] o.pc = "flush" -> "Flush"
+    [] o.pc \in {"flush", "finalflush"} -> "Flush"
     [] o.pc = "cwrite" -> "LibyamlWrite"
     [] o.pc = "finish" -> "Finish"
     [] o.pc = "dispose" -> "Dispose"
@@ -611,7 +637,8 @@ Stopped(o) == o.pc = "done" \/ o.yielded
 RECURSIVE Run(_, _, _)
 Run(o, g, faultAt) ==
   IF Stopped(o) THEN [o |-> o, g |-> g]
-  ELSE LET r == Step(o, g, faultAt # 0 /\ o.ninv + 1 = faultAt /\ IsInvocation(o)) IN Run(r.o, r.g, faultAt)
+  ELSE LET r == Step(o, g, faultAt # 0 /\ (o.ninv + 1 = faultAt \/ (Persistent /\ o.ninv + 1 > faultAt)) /\ IsInvocation(o))
+       IN  Run(r.o, r.g, faultAt)
 \* iterate a generator object to the end, keeping everything it delivers
 RECURSIVE Iterate(_, _)
 Iterate(o, g) == LET r == Run([o EXCEPT !.yielded = FALSE], g, 0)
@@ -680,7 +707,8 @@ V_Documents(s) ==
 \* C19: the injected exception is the one that reaches the caller; what was written is a prefix of the fault-free output
 V_FaultTransparency(s, res, o1) ==
   (s.fault > 0) =>
-    /\ HF!PassedThrough(res.end, "raise:INJ")
+    /\ HF!PassedThrough(res.end, "raise:INJ")              \* the FIRST exception the environment raised
+    /\ HF!ContentUnchanged(o1.excContent, "as raised")
     /\ o1.kind = "dumper" => HF!IsPrefix(o1.written, Run(NewObj(s), Globals0, 0).o.written)
 \* an object is disposed when its call is over (try / finally in every entry point of __init__.py)
 V_Lifetime(s, o1) == s.t \in {"call", "close"} => (o1.pc = "done" /\ (o1.disposed \/ s.t = "close"))
@@ -747,7 +775,8 @@ Open       == /\ nstep < MaxHist /\ ~cur.active /\ Len(gens) < MaxGens
               /\ cur' = cur
 Method(names, inj) ==
   /\ cur.active /\ ~Stopped(cur.o) /\ ActionName(cur.o) \in names
-  /\ inj => (Faults /\ ~cur.faulted /\ IsInvocation(cur.o) /\ cur.step.t # "close")
+  /\ inj => (Faults /\ (~cur.faulted \/ Persistent) /\ IsInvocation(cur.o) /\ cur.step.t # "close")
+  /\ ~inj => ~(Persistent /\ cur.faulted /\ IsInvocation(cur.o))          \* a broken stream stays broken
   /\ LET r == Step(cur.o, globals, inj)
      IN  /\ cur' = [cur EXCEPT !.o = r.o, !.faulted = @ \/ inj, !.act = IF inj THEN "Fault" ELSE ActionName(cur.o)]
          /\ globals' = r.g
